@@ -5,9 +5,9 @@ import random
 from .. import common, own, store, tlc
 
 MC = """CONSTANTS
-  Vals = {"v1", "v2"}
+  Vals = {"v1", "v2"%s}
   Ids = {0, 1, 2}
-  Refs = {1, 2, 3, 4%s}
+  Refs = {1, 2, 3, 4}
   Depth = 6
 SPECIFICATION Spec
 INVARIANT IdsUnique
@@ -36,7 +36,7 @@ def run(prop, tier, seed, replay=None):
     rnd = random.Random(seed)
     q = tier == "quick"
     if replay is None:
-        res = tlc.model_check("AwOwnership", MC % ("" if q else ", 5"), tag="mc_own", heap="8g")
+        res = tlc.model_check("AwOwnership", MC % ("" if q else ', "v3"'), tag="mc_own", heap="8g")
         rep.add_model(res, "ownership model: insert (single / bulk) stores a copy, reads hand out new objects, CallerMutate changes the heap only; invariants IdsUnique, ReadsReflectStore, StoredAsInserted; action property Ownership")
         depth = 12 if q else 16
         out = tlc.simulate("AwOwnership", GEN % depth, num=120 if q else 1500, depth=depth, seed=seed, tag="gen_own")
